@@ -390,7 +390,7 @@ class DeployEngine(object):
             if not mv.strongly_connected():
                 w.probe("disconnected_machine")
             # memo state of the router
-            if t.draw(2):
+            if t.draw(2) and hasattr(ner, "memoized_concentric_hexagons"):
                 w.probe("memo_prewarmed")
                 for _ in range(1 + t.draw(3)):
                     ner.memoized_concentric_hexagons(t.draw(25))
